@@ -192,7 +192,8 @@ PROPS["C10"] = {
              rapid("mqueue", "pseq", "TestC10MQueue", 4, 2000, 16, 60000),
              rapid("list", "pseq", "TestC10List", 4, 2000, 16, 60000),
              rapid("ring", "pseq", "TestC10Ring", 4, 2000, 16, 60000),
-             plain("ringbig", "pseq", "TestC10RingBig")],
+             plain("ringbig", "pseq", "TestC10RingBig"),
+             plain("listbig", "pseq", "TestC10ListBig")],
     "rule": "Four rapid legs, each drawing a history as data and comparing with a reference after EVERY step. "
             "stack / mqueue: zero value or constructor; Push/Add/Pop/Top/Front/Peek(n in and out of range; n<0 must panic)/"
             "Each(stop after j)/Len/IsEmpty/Clear/Slice and runs, against a reference slice (Each/Slice of the stack newest "
@@ -225,7 +226,7 @@ PROPS["C10"] = {
             "ELEMENT KINDS (the library is generic, so the property must hold for every instantiation; a change that special-cases a type through a type switch, reflect, unsafe.Sizeof, DeepEqual or fmt is only visible this way): every leg draws an element kind for its container: half of the cases use int; the rest instantiate Stack/Queue/List/Ring with string, int16, an 88-byte comparable struct, *Cell pointers, []byte or any (holding fresh pointers). The model stays in ints and every comparison additionally requires, for the kinds with an identity, that the element returned/listed is the very element that was handed in (pointer / backing array / value+ID), with the zero value of T where the int model has 0. In the list leg half of the Sets through a cursor at a real element (spliced in by construction) supply a NEW element whose value (for pointer-like kinds: whose pointee/contents) equals the one it replaces, and the list must then hold the element that was set; ring.Of must store the given elements themselves and ring.New zero values. Peek/At offsets include the ends of the int range. "
             "The each ops also start a second Each inside the callback of the first. "
             "One list Add in ten passes 15..65 values in a single call. "
-            "BIG CONTAINERS: about one ring case in 16 additionally builds one large ring beside the pool (sizes around powers of two from 64 to 4096, round and odd sizes, or uniform up to 6000) by Of, New, Join of two rings, Pop of some elements, or a run spliced out by a same-ring Join; after one Next/Prev/Len/Each check of the cycle, At and Peek are compared at both signs of offsets around 0, Len/2, Len, 2*Len, powers of two +-1, Len+-2^k, round numbers and MaxInt with the documented rule (the element |n| steps away while |n| < Len, nil / (zero, false) beyond, either accepted at |n| == Len). Leg ringbig sweeps the same probe over every favoured size up to 2^16+2 (thorough: 2^20+2); non-trivial there = ring of >= 1024 elements. About one stack / mqueue / list case in 16 additionally builds one long container (same sizes; list filled by one variadic Add, per-element Add at the end cursor, or Push at the front; a few elements popped or removed again) and checks Len, Each, and Peek (and List.At) at the same offset families: in range the very element and true, from Len on ok = false / the end cursor.",
+            "BIG CONTAINERS: about one ring case in 16 additionally builds one large ring beside the pool (sizes around powers of two from 64 to 4096, round and odd sizes, or uniform up to 6000) by Of, New, Join of two rings, Pop of some elements, or a run spliced out by a same-ring Join; after one Next/Prev/Len/Each check of the cycle, At and Peek are compared at both signs of offsets around 0, Len/2, Len, 2*Len, powers of two +-1, Len+-2^k, round numbers and MaxInt with the documented rule (the element |n| steps away while |n| < Len, nil / (zero, false) beyond, either accepted at |n| == Len). Leg ringbig sweeps the same probe over every favoured size up to 2^16+2 (thorough: 2^20+2); non-trivial there = ring of >= 1024 elements. Leg listbig builds ONE list of 2^k-1 / 2^k+3 elements (k to 20, thorough 22; per-element Add, one variadic Add, or Push at the front), saves cursors around the cut, at cut+2^j+-1, N/2, N-1 and the end, clears or truncates the list (cut at 0, 1, a random place, or beyond the middle), and requires every saved cursor behind the cut to refuse Get/AtEnd/Next/Set/Push/Add/Remove/Truncate with an 'invalid cursor' panic however long the discarded tail is, the cursors before the cut to read their elements, and Len/Each/Peek of the rest to be unchanged by the refused calls; non-trivial there = a stale cursor more than 2^16 positions behind the cut. About one stack / mqueue / list case in 16 additionally builds one long container (same sizes; list filled by one variadic Add, per-element Add at the end cursor, or Push at the front; a few elements popped or removed again) and checks Len, Each, and Peek (and List.At) at the same offset families: in range the very element and true, from Len on ok = false / the end cursor.",
     "assumptions": COMMON_ASSUME + [
         "a hang is recognised by the kit's watchdog (case still running after 30 s wall and 20 s CPU; the operations are O(n <= 64))",
         "mlink cursors are value-copyable (the position check walks a copy of the cursor)",
@@ -638,8 +639,10 @@ PROPS["C12"] = {
 
 PROPS["C17"] = {
     "legs": [plain("exh", "pslice", "TestC17Exhaustive", solo=True),
-             rapid("rand", "pslice", "TestC17Rand", 4, 10000, 16, 1500000)],
-    "rule": "A case is one call {fn, n, k, spare, keep, rows}: the slice has n distinct elements 100+i, `spare` filler "
+             rapid("rand", "pslice", "TestC17Rand", 4, 10000, 16, 1500000),
+             plain("rotbig", "pslice", "TestC17RotBig")],
+    "rule": "leg rotbig: Rotate of int slices of 4096, 2^16-1 .. 2^16+1, 100000, 2^17, 2^17+3 and one seed-dependent length (thorough: also 2^20, 2^20+1, 2^22) by every k with |k| <= 70, every k within 70 of +-len, powers of two +-1 (and len minus those), len/2+-2, len/3+-2, two random shifts and len+1 / -len-1 (must panic), checked in one linear pass (every element at (i+k) mod len, spare capacity and sentinel untouched); non-trivial there = a proper rotation (k mod len != 0). "
+            "A case is one call {fn, n, k, spare, keep, rows}: the slice has n distinct elements 100+i, `spare` filler "
             "elements of spare capacity behind it and a sentinel after its capacity; k is the numeric argument. leg exh "
             "enumerates, by slice length: Partition for EVERY keep pattern of n <= 12 (quick) / 18 (thorough) elements "
             "with spare 0 and 2; Rotate for every n <= 24 / 96 and every k in [-n-2, n+2] (spare 0, 1); Chunks and "
